@@ -123,11 +123,15 @@ def generate(modules, log):
         return bdir, tr.report, True, "generated"
 
 
-def prune_builds(keep, n=14):
+def prune_builds(keep, n=40, min_age_s=6 * 3600):
+    """keep the n most recent build directories; never remove one used in the last hours
+    (another check may be running in it)"""
     ds = [d for d in glob.glob(os.path.join(BUILD, "*")) if os.path.isdir(d) and len(os.path.basename(d)) == 16]
     ds.sort(key=os.path.getmtime, reverse=True)
+    now = time.time()
     for d in ds[n:]:
-        if os.path.basename(d) != keep:
+        newest = max([os.path.getmtime(d)] + [os.path.getmtime(os.path.join(d, x)) for x in os.listdir(d)])
+        if os.path.basename(d) != keep and now - newest > min_age_s:
             shutil.rmtree(d, ignore_errors=True)
             try: os.remove(d + ".lock")
             except OSError: pass
@@ -185,11 +189,14 @@ def parse_assumptions(out):
     return {k: "\n".join(v) for k, v in res.items()}
 
 
-def gate_no_axioms():
-    """no Axiom/Admitted/... anywhere in the development"""
+def gate_no_axioms(prop=None):
+    """no Axiom/Admitted/... in the library, the specs and the proof files of `prop`
+    (all proof directories when prop is None)"""
     pat = re.compile(r"\b(Admitted|admit|Axiom|Axioms|Parameter|Parameters|Conjecture|Hypothesis|Variable)\b|Unset Guard|bypass_check|type-in-type|impredicative-set")
     bad = []
-    for f in glob.glob(os.path.join(VERIF, "coq", "**", "*.v"), recursive=True):
+    files = glob.glob(os.path.join(VERIF, "coq", "lib", "*.v")) + glob.glob(os.path.join(VERIF, "coq", "spec", "*.v"))
+    files += glob.glob(os.path.join(VERIF, "coq", "proofs", prop or "*", "*.v"))
+    for f in files:
         insec = 0
         for i, line in enumerate(open(f), 1):
             code = re.sub(r"\(\*.*?\*\)", "", line)
